@@ -7,6 +7,7 @@ CONSTANTS
   MaxBatches = 2
   MaxMats = 2
   BatchIndexShifted = TRUE
+  UnconsumedPolicy = "zero"
   Cfgs <- CfgT
   Queries <- Q12
   PowBits <- Pow02
@@ -19,5 +20,7 @@ INVARIANTS
   AritiesBounded
   SameIndexBits
   CapsAccounted
+  ScheduleIsFunctional
+  WithheldHeightStillChecked
   Emit
 CHECK_DEADLOCK FALSE
